@@ -203,6 +203,8 @@ def gen_layered_world(rng, i, two_layer=None, want_files=True, small=False, allo
         read["global_dirs"] = rng.pick([[".d"], [".conf.d", ".d"], ["/conf.d", ".d"], [".x.d"], ["/conf.d"]])
     if rng.chance(0.15):
         read["global_pre"] = rng.pick([[[".old.d"]], [["/x.d", ".y.d"]], [[".d"], ["/conf.d"]]])
+    if rng.chance(0.2):
+        read["global_late"] = True      # the list in force at READ time counts, not the one at object creation
     read["cb"] = rng.chance(0.5)
     # delimiter and comment sets of the read; tree files are rendered to match (plain profile + inert noise)
     read["delim"] = rng.pick(["=", "=", "=", ":", "= ", ":=", "=\t"])
@@ -292,6 +294,9 @@ def gen_layered_world(rng, i, two_layer=None, want_files=True, small=False, allo
     for n in nodes:
         if n["t"] == "f":
             n["delim"] = dch
+            if rng.chance(0.12):
+                # section headers without any live key (all keys commented out): they carry nothing
+                n["empty_secs"] = rng.subset(SECS + ["Z"], 1, 2)
             if rng.chance(0.5):
                 n["noise"] = rng.getrandbits(24)
                 n["cchars"] = read["comment"] or "#"
@@ -311,6 +316,15 @@ def tree_plan(nodes):
         e = {"t": n["t"], "p": n["p"]}
         if n["t"] == "f":
             e["c"] = n["c"] if "c" in n else render_plain([tuple(x) for x in n.get("entries", [])], n.get("delim", "="), n.get("pad", ""))
+            if "c" not in n and n.get("empty_secs"):
+                # key-less headers: one block before the first real section, the rest at the end of the file
+                lines = e["c"].split("\n")
+                first = next((i for i, l in enumerate(lines) if l.startswith("[")), len(lines))
+                es = [x for x in n["empty_secs"] if not any(en[0] == x for en in n.get("entries", []))]
+                head = ["[%s]" % x for x in es[:1]]
+                tail = ["[%s]" % x for x in es[1:]]
+                lines = lines[:first] + head + lines[first:]
+                e["c"] = "\n".join([l for l in lines if l != "" or True]).rstrip("\n") + "\n" + "".join(t + "\n" for t in tail)
             if "c" not in n and n.get("noise") is not None and n.get("entries"):
                 e["c"] = noisy(e["c"], n["noise"], n.get("cchars", "#"), trail=not n.get("notrail"))
         elif n["t"] == "l":
@@ -340,16 +354,27 @@ def read_op(read, o=0, cb=None, ep=None, init="null", in_slot=None, faults=None)
     return op
 
 
+def final_global_ops(read):
+    if read.get("global_dirs"):
+        return [{"op": "setConfDirs", "dirs": read["global_dirs"]}]
+    if read.get("global_pre"):
+        return [{"op": "setConfDirs", "dirs": []}]
+    return []
+
+
 def prologue_ops(read):
     ops = []
     # earlier settings of the process-wide drop-in list that a later call replaced (or cleared again)
     for pre in read.get("global_pre", []):
         ops.append({"op": "setConfDirs", "dirs": pre})
-    if read.get("global_dirs"):
-        ops.append({"op": "setConfDirs", "dirs": read["global_dirs"]})
-    elif read.get("global_pre"):
-        ops.append({"op": "setConfDirs", "dirs": []})
+    if not read.get("global_late"):
+        ops += final_global_ops(read)
     return ops
+
+
+def late_global_ops(read):
+    """the final setting of the process-wide list, made AFTER the object of a layered read was created"""
+    return final_global_ops(read) if read.get("global_late") else []
 
 
 def layered_read_ops(read, cb=None, init="null", faults=None, dump_ext=False):
@@ -365,8 +390,10 @@ def layered_read_ops(read, cb=None, init="null", faults=None, dump_ext=False):
         ops.append(op)
     elif read["ep"] == "readConfig":
         ops.append({"op": "newOpts", "o": 0, "options": option_string(read), "tag": "new"})
+        ops += late_global_ops(read)
         ops.append(dict(read_op(read, o=0, cb=cb, in_slot=0, faults=faults), tag="read"))
     else:
+        ops += late_global_ops(read)
         ops.append(dict(read_op(read, o=0, cb=cb, init=init, faults=faults), tag="read"))
     if read["ep"] == "readDirsHistory":
         ops.append({"op": "dumpHistory", "h": 0, "ext": dump_ext, "tag": "dump"})
